@@ -391,8 +391,16 @@ func (c *Call) ExecRaw(api API) {
 			c.setPostAttr(r.Resok.File_wcc.After)
 		}
 	case "CREATE":
-		r := api.NFSPROC3_CREATE(nfstypes.CREATE3args{Where: nfstypes.Diropargs3{Dir: c.fh(), Name: nfstypes.Filename3(c.Name)},
-			How: nfstypes.Createhow3{Mode: nfstypes.Createmode3(c.How)}})
+		how := nfstypes.Createhow3{Mode: nfstypes.Createmode3(c.How)}
+		if c.SetSize { // initial attributes: a size for the new file
+			how.Obj_attributes.Size.Set_it = true
+			if c.SizeSat {
+				how.Obj_attributes.Size.Size = nfstypes.Size3(c.RawSize)
+			} else {
+				how.Obj_attributes.Size.Size = nfstypes.Size3(c.Size)
+			}
+		}
+		r := api.NFSPROC3_CREATE(nfstypes.CREATE3args{Where: nfstypes.Diropargs3{Dir: c.fh(), Name: nfstypes.Filename3(c.Name)}, How: how})
 		if c.setStatus(r.Status) {
 			if r.Resok.Obj.Handle_follows {
 				c.RFh = Hex(r.Resok.Obj.Handle.Data)
